@@ -57,7 +57,8 @@ def gen_name(rng, kind=None):
     if rng.random() < 0.2:
         # valid UTF-8 that is NOT in a Unicode normal form (decomposed accents, compatibility singletons, Hangul jamo): names are
         # sequences of code points, stored and returned as they are
-        return list(rng.choice([[0x65, 0x301], [0x41, 0x30A, 0x6E], [0x212B], [0x2126, 0x61], [0x1100, 0x1161], [0x6F, 0x308, 0x301], [0xFB01, 0x78]]))
+        return list(rng.choice([[0x65, 0x301], [0x41, 0x30A, 0x6E], [0x212B], [0x2126, 0x61], [0x1100, 0x1161], [0x6F, 0x308, 0x301], [0xFB01, 0x78],
+                                [0xFEFF, 0x61], [0xFEFF], [0x62, 0xFEFF]]))     # U+FEFF is a code point like any other, first or not
     return [rng.choice(UNI_POOL) for _ in range(rng.randrange(1, 6))]
 
 
